@@ -459,6 +459,7 @@ pub fn run(out: &mut Out, seed: u64, thorough: bool, replay: Option<&str>) {
             // which servers acknowledged the write and are not the reader
             if put_ok && !found && writer != reader && !net.holders(writer, &hex(target.as_bytes()), reader).is_empty() {
                 net.out.violation("C01", "put-then-get-miss", format!("put_immutable returned Ok on node {writer} but get_immutable on node {reader} returned {:?} ({servers} servers, {clients} clients, public={public})", got));
+                net.out.violation("C08", "acknowledged-value-not-served", format!("put_immutable returned Ok on node {writer}: storing nodes acknowledged it and are alive, yet none of them serves the value to node {reader}"));
             }
             // C07 / C13: with up to 20 servers a lookup queries every server
             if servers <= 20 {
@@ -502,6 +503,7 @@ pub fn run(out: &mut Out, seed: u64, thorough: bool, replay: Option<&str>) {
             let mt = hex(MutableItem::new(&key_from_seed(9), b"mutable", 3, Some(b"salt")).target().as_bytes());
             if ok && !got.iter().any(|r| r.contains("seq=3 v=6d757461626c65")) && writer != reader && !net.holders(writer, &mt, reader).is_empty() {
                 net.out.violation("C01", "put-then-get-miss", format!("put_mutable returned Ok on node {writer} but get_mutable on node {reader} yielded {:?}", got));
+                net.out.violation("C08", "acknowledged-value-not-served", format!("put_mutable returned Ok on node {writer}: storing nodes acknowledged it and are alive, yet none of them serves the item to node {reader}"));
             }
             // the same sequence number again with another value: BEP44 accepts it (the seq is not lower),
             // so what the second Ok promises is what a later reader must be handed
@@ -513,6 +515,7 @@ pub fn run(out: &mut Out, seed: u64, thorough: bool, replay: Option<&str>) {
             let got2 = net.results(reader, g2);
             if ok && ok2 && !got2.iter().any(|r| r.contains("seq=3 v=6d757461626c652d32")) && writer != reader && !net.holders(writer, &mt, reader).is_empty() {
                 net.out.violation("C01", "put-then-get-miss", format!("put_mutable of another value with the same seq returned Ok on node {writer} but get_mutable on node {reader} yielded {:?}", got2));
+                net.out.violation("C08", "acknowledged-value-not-served", format!("put_mutable (seq 3, second value) returned Ok on node {writer}: storing nodes acknowledged it and are alive, yet none of them serves that value to node {reader}, which gets {:?}", got2.iter().map(|r| r.chars().take(60).collect::<String>()).collect::<Vec<_>>()));
             }
             let ih = Id::from_bytes(rng.id20()).expect("id");
             let c = net.api(writer, format!("announce ih={} port=7000", hex(ih.as_bytes())));
